@@ -273,6 +273,7 @@ var srvTemplatesC15 = []string{
 	"- c1;c2;g1.9;q2.5;d1;q2.6;c3;g3.8;c4;q4.7;q2.8",
 	"- c1;q1.1;g1.2;d1;c2;q2.3;q2.4",
 	"- c1;g1.5;h1.5;q1.6;c2;g2.7;q1.8;h2.7;d1;d2",
+	"- c1;m1.100;q1.7;c2;m2.200;q1.8;m1.300;d1;q2.9",
 }
 
 func init() {
